@@ -157,6 +157,8 @@ func solveFunc(fr *FuncResult, opts SolveOpts) []*OblResult {
 	sem := make(chan struct{}, opts.Workers)
 	fkey := sanitize(fr.Key)
 	retries := map[string]int{}
+	crossN := map[string]int{}
+	const crossCap = 6
 	var retryMu sync.Mutex
 	if fr.DeclsQF == "" {
 		fr.DeclsQF = fr.Decls.TextQF()
@@ -263,6 +265,15 @@ func solveFunc(fr *FuncResult, opts SolveOpts) []*OblResult {
 			if opts.CrossCheck {
 				for k, in := range j.insts {
 					if in.res != "unsat" || in.by == "static" || in.by == "trivial" {
+						continue
+					}
+					// at most crossCap instances per obligation name (the instances of one name differ
+					// only in the path they sit on)
+					retryMu.Lock()
+					cn := crossN[in.obl.Name]
+					crossN[in.obl.Name] = cn + 1
+					retryMu.Unlock()
+					if cn >= crossCap {
 						continue
 					}
 					script := singleQuery(decls, in)
